@@ -20,7 +20,7 @@ from typing import Any, Callable, Dict, List, Optional, Sequence, Tuple
 from .index import FuncInfo, Index, dotted
 from .symeval import Closure, EvalRaise, Evaluator, Obj, Opaque, Unsupported
 
-SIZES = {"B": 7, "e0": 2, "e1": 3, "e2": 5, "e3": 11, "C": 13, "N": 17, "i0": 19, "i1": 23, "S": 29, "D": 31, "1": 1, "u0": 1, "u1": 1}
+SIZES = {"B": 7, "b0": 7, "k": 37, "e0": 2, "e1": 3, "e2": 5, "e3": 11, "C": 13, "N": 17, "i0": 19, "i1": 23, "S": 29, "D": 31, "1": 1, "u0": 1, "u1": 1}
 
 
 class AxisViolation(Exception):
@@ -80,6 +80,68 @@ class Model:
             raise EvalRaise("TypeError")
         c = canon(ax, len(L))
         return arr(L), {L[c]}
+
+    @staticmethod
+    def elementwise(arrays, p):
+        return arr(labels_of(arrays[0])), set()
+
+    @staticmethod
+    def broadcast(arrays, p):
+        """n-ary element-wise operation with numpy broadcasting: operands are aligned on their LAST axes"""
+        Ls = [labels_of(a) for a in arrays]
+        n = max(len(L) for L in Ls)
+        out = []
+        for i in range(1, n + 1):
+            here = {L[-i] for L in Ls if len(L) >= i} - {"1"}
+            if len(here) > 1:
+                raise AxisViolation(f"broadcasting aligns different axes of the operands: {' / '.join(str(L) for L in Ls)} (axis -{i}: {sorted(here)})")
+            out.append(next(iter(here)) if here else "1")
+        return arr(tuple(reversed(out))), set()
+
+    @staticmethod
+    def _contract(arrays, numpy_dot: bool):
+        La, Lb = labels_of(arrays[0]), labels_of(arrays[1])
+        if not La or not Lb:
+            raise EvalRaise("ValueError")
+        A = ("<row>",) + La if len(La) == 1 else La
+        Bm = Lb + ("<col>",) if len(Lb) == 1 else Lb
+        if A[-1] != Bm[-2]:
+            raise AxisViolation(f"contracts axis `{A[-1]}` of the first operand {La} with axis `{Bm[-2]}` of the second {Lb}")
+        if numpy_dot:
+            out = A[:-1] + Bm[:-2] + Bm[-1:]
+        else:
+            ba, bb = A[:-2], Bm[:-2]
+            n = max(len(ba), len(bb))
+            batch = []
+            for i in range(1, n + 1):
+                here = {L[-i] for L in (ba, bb) if len(L) >= i} - {"1"}
+                if len(here) > 1:
+                    raise AxisViolation(f"stacks of matrices are aligned on different axes: {La} / {Lb}")
+                batch.append(next(iter(here)) if here else "1")
+            out = tuple(reversed(batch)) + (A[-2], Bm[-1])
+        return arr(tuple(l for l in out if l not in ("<row>", "<col>"))), {A[-1]}
+
+    @staticmethod
+    def matmul(arrays, p):
+        return Model._contract(arrays, False)
+
+    @staticmethod
+    def dot(arrays, p):
+        return Model._contract(arrays, True)
+
+    @staticmethod
+    def trailing(arrays, p):
+        """acts on the last k axes of the operand (k: fixed, or every axis of one example); the layout is kept"""
+        L = labels_of(arrays[0])
+        k = p.get("_k") or len([l for l in L if l != "B"])
+        return arr(L), set(L[len(L) - k:]) if k else set()
+
+    @staticmethod
+    def along(arrays, p):
+        """acts along the given axes (None: all) and keeps the layout"""
+        L = labels_of(arrays[0])
+        sel = _axes_tuple(p.get("axes"), len(L))
+        return arr(L), {L[i] for i in sel}
 
     @staticmethod
     def reduce(arrays, p):
@@ -192,7 +254,7 @@ class Model:
         return arr(L[:pos] + ("N",) + L[pos:]), set()
 
 
-KINDS: Dict[str, Callable[..., Any]] = {k: getattr(Model, k) for k in ("preserve", "reduce", "size", "insert", "stack", "concat", "squeeze", "transpose", "split", "unstack", "take", "diagonal", "linspace")}
+KINDS: Dict[str, Callable[..., Any]] = {k: getattr(Model, k) for k in ("elementwise", "broadcast", "matmul", "dot", "trailing", "along", "preserve", "reduce", "size", "insert", "stack", "concat", "squeeze", "transpose", "split", "unstack", "take", "diagonal", "linspace")}
 
 
 class Spec:
@@ -247,6 +309,8 @@ class BatchEval(Evaluator):
 
     # free names are opaque, attribute chains on them stay opaque
     def eval(self, e, env, fi, depth):  # type: ignore[override]
+        if isinstance(e, ast.Name) and e.id not in env and e.id in ("NOT_MAPPED", "not_mapped"):
+            return None
         if isinstance(e, ast.Name) and e.id not in env and e.id not in fi.module.consts and e.id not in ("True", "False", "None"):
             return Opaque(e.id)
         if isinstance(e, ast.Attribute):
@@ -255,10 +319,18 @@ class BatchEval(Evaluator):
                 return self.consts[d]
             base = self.eval(e.value, env, fi, depth)
             if isinstance(base, Opaque):
+                if e.attr == "multiple_results":
+                    return False
                 return Opaque(base.name + "." + e.attr)
             if is_arr(base) and e.attr == "T":
                 return arr(tuple(reversed(labels_of(base))))
         return super().eval(e, env, fi, depth)
+
+    def eval_call(self, e, env, fi, depth):  # type: ignore[override]
+        from .index import call_name as _cn
+        if (_cn(e) or "") in ("cast", "typing.cast") and len(e.args) == 2 and not e.keywords:
+            return self.eval(e.args[1], env, fi, depth)   # typing.cast(T, v) is v; T is not evaluated
+        return super().eval_call(e, env, fi, depth)
 
     # ------------------------------------------------------------------------------------------------ sinks
     def _sink(self, cn: str, args: Sequence[Any], kwargs: Dict[str, Any], names: Dict[str, str]) -> Any:
@@ -289,7 +361,9 @@ class BatchEval(Evaluator):
                 return x
             L = labels_of(x)
             if bd is None:
-                return arr(("B",) + L)
+                # an unmapped operand is broadcast to the given extent along a new leading axis
+                size = args[2] if len(args) > 2 else kwargs.get("size")
+                return arr((("1" if size == 1 else "B"),) + L)
             c = canon(bd, len(L))
             return arr((L[c],) + L[:c] + L[c + 1:])
         if last == "moveaxis" and len(args) + len(kwargs) >= 3 and is_arr(args[0]):
@@ -304,20 +378,29 @@ class BatchEval(Evaluator):
                 return arr(L)
             raise Unsupported("moveaxis with sequences")
         if last == "expand_dims" and args and is_arr(args[0]):
-            ax = kwargs.get("axis", args[1] if len(args) > 1 else None)
-            L = labels_of(args[0])
-            pos = canon(ax, len(L) + 1)
-            return arr(L[:pos] + ("S",) + L[pos:])
+            ax = kwargs.get("axis", kwargs.get("dimensions", args[1] if len(args) > 1 else None))
+            L = list(labels_of(args[0]))
+            axes = list(ax) if isinstance(ax, (tuple, list)) else [ax]
+            total = len(L) + len(axes)
+            for pos in sorted(canon(a_, total) for a_ in axes):
+                L.insert(pos, "1")
+            return arr(L)
+        if last == "definitely_equal_shape" and len(args) == 2:
+            return tuple(args[0]) == tuple(args[1])
+        if cn in ("np.ndim", "jnp.ndim") and args and not is_arr(args[0]):
+            if isinstance(args[0], (int, float, bool)):
+                return 0
+            raise Unsupported("ndim of a non-array")
         if last == "concatenate" and args and isinstance(args[0], (list, tuple)) and all(is_arr(a) for a in args[0]):
             ax = kwargs.get("axis", args[1] if len(args) > 1 else 0)
             xs = list(args[0])
             L = labels_of(xs[0])
             if any(labels_of(a) != L for a in xs):
                 raise AxisViolation("concatenated operands do not share one axis layout")
-            canon(ax, len(L))
-            return arr(L)
+            c = canon(ax, len(L))
+            return arr(L[:c] + ("S" if L[c] == "1" else L[c],) + L[c + 1:])
         if last == "broadcast_to" and len(args) == 2 and is_arr(args[0]) and isinstance(args[1], (tuple, list)):
-            rev = {v: k for k, v in SIZES.items() if v != 1}
+            rev = {v: k for k, v in SIZES.items() if v != 1 and k not in ("b0", "k")}
             new = tuple(rev.get(s, "?") for s in args[1])
             old = labels_of(args[0])
             if old and tuple(new[len(new) - len(old):]) != old:
@@ -339,6 +422,8 @@ class BatchEval(Evaluator):
             if tuple(SIZES.get(c, 37) for c in comp) == shp:
                 return arr(comp)
             raise Unsupported("reshape changing labelled axes")
+        if cn in ("cast", "typing.cast") and len(args) == 2:
+            return args[1]
         if last in ("asarray", "array", "stop_gradient", "astype") and args and is_arr(args[0]):
             return args[0]
         if cn in ("jax.lax.split", "lax.split") and args and is_arr(args[0]):
